@@ -122,6 +122,14 @@ func (processor *packetProcessor) publishHandler(ctx context.Context, sender str
 	}
 }
 
+// inboundPrefix is the in-flight key space of exchanges started by the client
+// (QoS 2 PUBLISH awaiting PUBREL). Their packet identifiers are chosen by the
+// client and are unrelated to the identifiers the broker allocates for its own
+// deliveries to the same session, so both must not share one key space.
+func inboundPrefix(sessionID string) string {
+	return sessionID + "/in"
+}
+
 func (processor *packetProcessor) Process(ctx context.Context, session *sessions.Session, c io.Writer, pkt packet.Packet) error {
 	ctx, cancel := context.WithTimeout(ctx, 800*time.Millisecond)
 	defer cancel()
@@ -149,7 +157,7 @@ func (processor *packetProcessor) Process(ctx context.Context, session *sessions
 				Header:    &packet.Header{},
 				MessageId: p.MessageId,
 			}
-			err := processor.inflights.Insert(session.ID(), pubrec, time.Now().Add(3*time.Second), func(expired bool, stored, received packet.Packet) {
+			err := processor.inflights.Insert(inboundPrefix(session.ID()), pubrec, time.Now().Add(3*time.Second), func(expired bool, stored, received packet.Packet) {
 				if expired {
 					L(ctx).Warn("qos2 flow timed out waiting for PUBREL")
 					return
@@ -228,7 +236,7 @@ func (processor *packetProcessor) Process(ctx context.Context, session *sessions
 			L(ctx).Error("failed to ack pubrec", zap.Int32("message_id", p.MessageId), zap.Error(err))
 		}
 	case *packet.PubRel:
-		err := processor.inflights.Ack(session.ID(), p)
+		err := processor.inflights.Ack(inboundPrefix(session.ID()), p)
 		if err != nil {
 			L(ctx).Error("failed to ack pubrel", zap.Int32("message_id", p.MessageId), zap.Error(err))
 		}
